@@ -139,7 +139,7 @@ def run_C11(w):
         words.append(f)
     for i, f in enumerate(words):
         if i % w.nshards == w.shard:
-            flags_input(w, {'kind': 'flagword', 'word': f})
+            w.guard(flags_input, w, {'kind': 'flagword', 'word': f})
     # header alterations
     inputs = []
     for name, _, _ in BASES:
@@ -162,7 +162,7 @@ def run_C11(w):
         inputs.append({'kind': 'header', 'base': name, 'varnames': [], 'xor': 4})
     for i, inp in enumerate(inputs):
         if i % w.nshards == w.shard:
-            header_input(w, inp)
+            w.guard(header_input, w, inp)
 
 
 props.RUN['C11'] = run_C11
